@@ -214,6 +214,139 @@ theorem visit_frame {π β} {h : Hist π} (hT : h.Topo) (pl : Plug π β) (head 
             · cases hv; rw [h2, h1]
             · cases hv
 
+/-! ### induction principle for the DFS over report commits (`bp`) -/
+
+/-- report commits are numbered in topological order -/
+def RcTopo (rcs : List RC) : Prop := ∀ (i : Nat) (rc : RC), rcs[i]? = some rc → ∀ p ∈ rc.parents, p < i
+
+/-- the DFS stops at `r` -/
+def bpStop {β} (rp : Repo β) (fs : FS) (r : Nat) : Bool := isCurBuild rp r || (fs.bparents.lookup r).isSome
+
+def FS.add (fs : FS) (r : Nat) (prs : List Nat) (explicit : Bool) : FS :=
+  { bparents := (r, prs) :: fs.bparents, new := if explicit then fs.new ++ [r] else fs.new }
+
+theorem bp_succ {β} (rp : Repo β) (anc : List (Nat × List Nat)) (fuel : Nat) (fs : FS) (r : Nat) :
+    bp rp anc (fuel + 1) fs r =
+      if bpStop rp fs r then .ok fs
+      else match rp.rcs[r]? with
+        | none => .error .keyError
+        | some rc =>
+          match rc.parents.reverse.foldlM (bp rp anc fuel) fs with
+          | .error e => .error e
+          | .ok fs1 =>
+            match prsOf rp anc fs1.bparents rc.parents with
+            | .error e => .error e
+            | .ok prs => .ok (fs1.add r prs rc.explicit) := by
+  rw [bp]; rfl
+
+theorem bp_frame {β} (rp : Repo β) (hT : RcTopo rp.rcs) (anc : List (Nat × List Nat)) :
+    ∀ (fuel : Nat) (fs : FS) (r : Nat) (fs' : FS), bp rp anc fuel fs r = .ok fs' →
+      ∀ x, r < x → fs'.bparents.lookup x = fs.bparents.lookup x := by
+  intro fuel
+  induction fuel with
+  | zero => intro fs r fs' hb; simp [bp] at hb
+  | succ fuel ih =>
+    intro fs r fs' hb x hx
+    rw [bp_succ] at hb
+    split at hb
+    · cases hb; rfl
+    · split at hb
+      · cases hb
+      · rename_i rc hrc
+        split at hb
+        · cases hb
+        · rename_i fs1 hfold
+          have h1 := foldlM_ind (bp rp anc fuel)
+            (fun _ (f : FS) => f.bparents.lookup x = fs.bparents.lookup x) (fun p => p < r)
+            (by
+              intro _ f a f' hI hG hstep
+              rw [← hI]
+              exact ih f a f' hstep x (by omega))
+            rc.parents.reverse [] fs fs1 rfl
+            (by intro a ha; exact hT r rc hrc a (List.mem_reverse.mp ha)) hfold
+          simp only at h1
+          split at hb
+          · cases hb
+          · cases hb
+            simp only [FS.add]
+            rw [lookup_cons_ne x r _ _ (by omega), h1]
+
+section BpInd
+variable {β : Type} (rp : Repo β) (anc : List (Nat × List Nat))
+variable (P : FS → Prop) (R : FS → FS → Prop) (C : FS → Nat → Prop)
+
+structure BpHyps : Prop where
+  Rrefl : ∀ s, R s s
+  Rtrans : ∀ {a b c}, R a b → R b c → R a c
+  Cmono : ∀ {s s' p}, R s s' → C s p → C s' p
+  Cstop : ∀ {s r}, P s → bpStop rp s r = true → C s r
+  Hadd : ∀ {s0 s r rc prs}, P s0 → bpStop rp s0 r = false → bpStop rp s r = false → rp.rcs[r]? = some rc →
+      R s0 s → P s → (∀ p ∈ rc.parents, C s p) → prsOf rp anc s.bparents rc.parents = .ok prs →
+      P (s.add r prs rc.explicit) ∧ R s (s.add r prs rc.explicit) ∧ C (s.add r prs rc.explicit) r
+
+variable {rp anc P R C}
+
+theorem bp_fold_ind (f : FS → Nat → Except Err FS)
+    (H : BpHyps rp anc P R C)
+    (IH : ∀ (s : FS) (r : Nat) (s' : FS), P s → f s r = .ok s' → P s' ∧ R s s' ∧ C s' r) :
+    ∀ (l : List Nat) (s s' : FS), P s → l.foldlM f s = .ok s' → P s' ∧ R s s' ∧ ∀ p ∈ l, C s' p := by
+  intro l
+  induction l with
+  | nil => intro s s' hP h; cases h; exact ⟨hP, H.Rrefl _, by simp⟩
+  | cons a l ih =>
+    intro s s' hP h
+    obtain ⟨s1, h1, h2⟩ := foldlM_ok_cons f s s' a l h
+    obtain ⟨hP1, hR1, hC1⟩ := IH s a s1 hP h1
+    obtain ⟨hP2, hR2, hC2⟩ := ih s1 s' hP1 h2
+    refine ⟨hP2, H.Rtrans hR1 hR2, ?_⟩
+    intro p hp
+    rcases List.mem_cons.mp hp with hp | hp
+    · subst hp; exact H.Cmono hR2 hC1
+    · exact hC2 p hp
+
+theorem bp_ind (hT : RcTopo rp.rcs) (H : BpHyps rp anc P R C) :
+    ∀ (fuel : Nat) (s : FS) (r : Nat) (s' : FS), P s → bp rp anc fuel s r = .ok s' → P s' ∧ R s s' ∧ C s' r := by
+  intro fuel
+  induction fuel with
+  | zero => intro s r s' _ hb; simp [bp] at hb
+  | succ fuel ih =>
+    intro s r s' hP hb
+    rw [bp_succ] at hb
+    split at hb
+    · rename_i hstop
+      cases hb
+      exact ⟨hP, H.Rrefl _, H.Cstop hP hstop⟩
+    · rename_i hstop
+      have hstop : bpStop rp s r = false := by simpa using hstop
+      split at hb
+      · cases hb
+      · rename_i rc hrc
+        split at hb
+        · cases hb
+        · rename_i s1 hfold
+          obtain ⟨hP1, hR1, hC1⟩ := bp_fold_ind (bp rp anc fuel) H ih rc.parents.reverse s s1 hP hfold
+          have hstop1 : bpStop rp s1 r = false := by
+            have h1 := foldlM_ind (bp rp anc fuel)
+              (fun _ (f : FS) => f.bparents.lookup r = s.bparents.lookup r) (fun p => p < r)
+              (by
+                intro _ f a f' hI hG hstep
+                rw [← hI]
+                exact bp_frame rp hT anc fuel f a f' hstep r hG)
+              rc.parents.reverse [] s s1 rfl
+              (by intro a ha; exact hT r rc hrc a (List.mem_reverse.mp ha)) hfold
+            simp only at h1
+            simp only [bpStop] at hstop ⊢
+            rw [h1]; exact hstop
+          split at hb
+          · cases hb
+          · rename_i prs hprs
+            cases hb
+            obtain ⟨hP2, hR2, hC2⟩ := H.Hadd hP hstop hstop1 hrc hR1 hP1
+              (fun p hp => hC1 p (List.mem_reverse.mpr hp)) hprs
+            exact ⟨hP2, H.Rtrans hR1 hR2, hC2⟩
+
+end BpInd
+
 /-! ### induction principle for the commit DFS -/
 
 section VisitInd
